@@ -125,6 +125,7 @@ type c15Case struct {
 	Type  string // signed plain remote-signed remote-plain unknown
 	Token string
 	Sign  string // submit only: the signwork field: "" absent, "true", "false"
+	Replay bool  // the token (valid for 5 minutes) was accepted once for another command; 12 virtual minutes later it is presented again
 }
 
 func runC15Case(t *testing.T, c c15Case) CaseOut {
@@ -172,6 +173,27 @@ func runC15Case(t *testing.T, c c15Case) CaseOut {
 		e.events = nil
 		before := len(e.w.ListKnownUnitIDs())
 		tok, present := c15Token(c.Token, "n1")
+		if c.Replay {
+			// first use: a submission to the verifying type with the still valid token
+			first := map[string]interface{}{"command": "work", "subcommand": "submit", "node": "n1", "worktype": "signed", "signature": tok}
+			line, _ := json.Marshal(first)
+			if s0, err := e.open(); err == nil {
+				s0.send(append(line, '\n'))
+				r0, _ := s0.readLine(60 * time.Second)
+				if strings.HasPrefix(r0, "Work unit created") {
+					s0.send([]byte("x\n"))
+					s0.closeWrite()
+					s0.readLine(60 * time.Second)
+				} else {
+					out.violate("sig:legitimate-command-refused:first-use-before-replay", "%+v: the first use of the valid token was refused: %q", c, trunc(r0, 100))
+				}
+				s0.close()
+			}
+			time.Sleep(12 * time.Minute)
+			synctest.Wait()
+			e.events = nil
+			before = len(e.w.ListKnownUnitIDs())
+		}
 		req := map[string]interface{}{"command": "work", "subcommand": c.Cmd}
 		if present {
 			req["signature"] = tok
@@ -269,6 +291,8 @@ func runC15Case(t *testing.T, c c15Case) CaseOut {
 			}
 		case c.Conn == "unix":
 			want = "effect"
+		case c.Replay:
+			want = "refused" // it has expired meanwhile
 		default:
 			switch c15TokenVerdict(c.Token) {
 			case "accept":
@@ -284,7 +308,7 @@ func runC15Case(t *testing.T, c c15Case) CaseOut {
 		}
 		out.Outcome = fmt.Sprintf("%s/%s want=%s effect=%v", c.Cmd, c.Type, want, effect)
 		if want == "refused" && effect {
-			out.violate(fmt.Sprintf("sig:effect-without-valid-token:%s:%s:%s:signwork=%s", c.Cmd, c.Type, c.Token, c.Sign), "%+v: the command must be refused but took effect (reply %q)", c, trunc(reply, 100))
+			out.violate(fmt.Sprintf("sig:effect-without-valid-token:%s:%s:%s:signwork=%s%s", c.Cmd, c.Type, c.Token, c.Sign, map[bool]string{true: ":replayed-after-expiry", false: ""}[c.Replay]), "%+v: the command must be refused but took effect (reply %q)", c, trunc(reply, 100))
 		}
 		if want == "refused" && !strings.HasPrefix(reply, "ERROR") {
 			out.violate(fmt.Sprintf("sig:not-refused:%s:%s:%s", c.Cmd, c.Type, c.Token), "%+v: expected an ERROR reply, got %q (%v)", c, trunc(reply, 100), rerr)
@@ -297,6 +321,7 @@ func runC15Case(t *testing.T, c c15Case) CaseOut {
 }
 
 func runC15(w *W) {
+	c15ReplayCases(w)
 	for _, cmd := range []string{"submit", "cancel", "release", "force-release", "results"} {
 		for _, conn := range []string{"unix", "tcp", "mesh"} {
 			for _, typ := range []string{"signed", "plain", "remote-signed", "remote-plain", "unknown"} {
@@ -308,10 +333,20 @@ func runC15(w *W) {
 						if sign != "" && cmd != "submit" {
 							continue
 						}
-						c := c15Case{cmd, conn, typ, tok, sign}
+						c := c15Case{Cmd: cmd, Conn: conn, Type: typ, Token: tok, Sign: sign}
 						c15One(w, c)
 					}
 				}
+			}
+		}
+	}
+}
+
+func c15ReplayCases(w *W) {
+	for _, cmd := range []string{"submit", "cancel", "release", "force-release", "results"} {
+		for _, conn := range []string{"tcp", "mesh"} {
+			for _, tok := range []string{"valid", "valid-rs256", "multi-audience-incl"} {
+				c15One(w, c15Case{Cmd: cmd, Conn: conn, Type: "signed", Token: tok, Replay: true})
 			}
 		}
 	}
@@ -333,7 +368,7 @@ func init() {
 		Level:     "exploration",
 		Technique: "exhaustive enumeration of command x connection kind x work type x token through the real RunControlSession/Workceptor with recording in-process work units; decision compared with the statement",
 		Rule: "5 commands x {unix, tcp, mesh address} x {verifying, non-verifying, remote with/without signing, unknown} x 20 tokens (absent, empty, garbage, valid RS512, valid RS256, expired, other audience, several audiences incl. this node, other key, alg none, HS256 keyed with the public key PEM, truncated, payload swapped under a valid signature, no exp, not-before in the future, no audience claim, empty audience list, blank audience, audiences that extend / shorten / upper-case the node ID). " +
-			"submit additionally with the signwork field absent, \"true\" or \"false\" (it asks for relayed work to be signed and must not influence whether the submission itself is verified). Tokens the node creates itself: a real daemon (signing key, token lifetime 3 s) relays every sequence of <=2 (and those of 3 ending in a signed one; thorough: all of 3) submissions from {signed, signed with ttl=1h, unsigned} to a recording stand-in for the control service on a real second node: each token verifies with the configured key, names the target node, and expires within the configured lifetime. Every combination is a distinct case; all are non-trivial. Effect = unit created / Cancel or Release reached the unit / unit removed / result stream started.",
+			"submit additionally with the signwork field absent, \"true\" or \"false\" (it asks for relayed work to be signed and must not influence whether the submission itself is verified). Replay: a token that was accepted once is presented again 12 virtual minutes later (5 commands x tcp/mesh x 3 valid token kinds) and must be refused as expired. Tokens the node creates itself: a real daemon (signing key, token lifetime 3 s) relays every sequence of <=2 (and those of 3 ending in a signed one; thorough: all of 3) submissions from {signed, signed with ttl=1h, unsigned} to a recording stand-in for the control service on a real second node: each token verifies with the configured key, names the target node, and expires within the configured lifetime. Every combination is a distinct case; all are non-trivial. Effect = unit created / Cancel or Release reached the unit / unit removed / result stream started.",
 		Assumptions: []string{"a token without exp is left open by the statement (either outcome accepted)", "a submit names the verifying type by its local registration"},
 		Run:         runC15,
 		Exec:        execC15,
